@@ -808,6 +808,10 @@ RunResult sim_run(const Plan &plan) {
                 apply_setconfig(G.w, op);
             } else if (op.op == "Mutate") {
                 apply_mutate(G.w, op.patch);
+                // descriptor 0 follows the state of stdin (the process closed or re-opened it)
+                { auto it0 = G.fds.find(0); bool is_stdin = it0 != G.fds.end() && it0->second.path == "<stdin>";
+                  if (G.w.tty_state == 1 && is_stdin) G.fds.erase(it0);
+                  else if (G.w.tty_state != 1 && it0 == G.fds.end()) { OpenDesc d0; d0.fd = 0; d0.kind = 0; d0.path = "<stdin>"; G.fds[0] = d0; } }
             } else if (op.op == "Exec") {
                 r.obs.emplace_back();
                 exec_call(op.ex, opi++, r.obs.back());
